@@ -15,11 +15,16 @@ EXPLANATION = (
     'break. C02.DECODE: every bytes<->text conversion on the wire uses a total single-byte codec (latin-1 aliases), so it can neither raise nor '
     'merge bytes across a chunk boundary. C02.APPEND: append writes exactly its argument once; the data setter/getter/length are exact. '
     'C02.CONSUME: on every path reaching the consumer the buffer was truncated by exactly the end of the parsed prefix (same term), once, before '
-    "the call, with no modification in between. C02.DISCARD: every other truncation cuts at the earliest known tag found, else at the last '<', "
-    'else discards everything only when neither exists; one character is dropped only under the enabled-threshold guard. C02.TAGS: the known-tag '
-    "list is computed from the parser's registry. Imported C11.RECOVER: a complete element that the message parser rejects is removed by exactly "
-    'its own length (nothing of the message behind it is lost). C02.AUX: the scan depends on the buffer text alone; any cached scan attribute '
-    'must be re-initialised after every truncation on every path (a stale resume offset makes delivery depend on where the stream was cut).'
+    'the call, with no modification in between. C02.DISCARD: the resynchroniser (identified by role: the innermost helper that consults the known '
+    'start tags and truncates) is evaluated by the interpreter on a catalogue of 820 constant buffer contents (all concatenations of up to three '
+    "pieces: junk, '<', '>', unknown and known start tags, attribute text, an end tag): what is left must be everything from the earliest known "
+    "start tag, else from the last '<', else nothing; where the symbolic provenance analysis recognises the way the search is written it extends "
+    'the statement to every input. Every other truncation inside process() must be explained: it cuts at the end of a prefix that the scan of the '
+    "same iteration handed to the message parser, or it drops exactly one character, only after 'length > threshold' was established with the "
+    "threshold enabled, and is followed by a resynchronisation. C02.TAGS: the known-tag list is computed from the parser's registry. Imported "
+    'C11.RECOVER: a complete element that the message parser rejects is removed by exactly its own length (nothing of the message behind it is '
+    'lost). C02.AUX: the scan depends on the buffer text alone; any cached scan attribute must be re-initialised after every truncation on every '
+    'path (a stale resume offset makes delivery depend on where the stream was cut).'
 )
 NOT_DECIDED = "that the 'parse every >-terminated prefix' test is right for every XML spelling and partition (expat's behaviour on prefixes)."
 ASSUMPTIONS = ["latin-1 decoding is total and byte-wise", "StringIO.write appends when the stream is never repositioned (checked: no seek/read)"]
